@@ -115,7 +115,7 @@ def generate(rng, n, k):
             other["volume_id"] = "other-vol"
             other["disc_number"] = len(pool) + 1
             pool.append(other)
-            ops += [["Server", "x86_64", 1], ["Client", "ppc64le", len(pool) - 1]]
+            ops += [["Server", "x86_64", 1], ["Workstation", "aarch64", len(pool) - 1]]      # a cell of its own: paths stay distinct per cell
             orders = []
             for _ in range(k):
                 o = list(ops)
